@@ -208,9 +208,10 @@ NAMES = ['color', 'margin-top', 'b', 'padding', '$var', '$w', '--custom', '--x-y
          '-webkit-transition', 'a', '*zoom', '_height']
 ATOMS = ['10px', 'solid', '#fff', '$var', '-1px', 'no-repeat', '1.5em', '!important', '0', 'auto', 'c', 'x', 'red',
          'calc(100% - 10px)', 'rgba(0, 0, 0, .5)', 'url(data:x)', 'var(--x)', 'url("a;b")', 'map-get($m, a)',
-         'translate(1px,2px)', 'a-b', '100%', '.5', "url('}{')", 'fn((a: b))']
+         'translate(1px,2px)', 'a-b', '100%', '.5', "url('}{')", 'fn((a: b))',
+         '(small: (min: 0, max: 599px), large: 1200px)', 'grid((cols: 3), $gutter: 10px)', 'f((a), b: c)', '((a: b), (c: d), e: f)']
 STR_BITS = ['a', ' ', '{', '}', ';', ':', '(', ')', '/*', '*/', '\\"', "\\'", '\\\\', 'x y', '}{', '//', '\\\n', '-']
-SELECTORS = ['a', '.b', '#c', 'ul > li', 'a:hover', 'a::before', '&:hover', '&.sel', '::before', ':root',
+SELECTORS = ['@include x((a: 1), $b: 2)', '@media ((min-width: 1px) and (max-width: 2px))', 'a', '.b', '#c', 'ul > li', 'a:hover', 'a::before', '&:hover', '&.sel', '::before', ':root',
              ':not(.a):hover', '@media (min-width: 10px)', '@media screen and (min-width:900px)',
              '@supports (display: grid) and (not (display: inline-grid))', '@font-face', '@include mq($from: mobile)',
              'a, b', 'a:nth-child(2n + 1)', '*', 'h1+h2', '.a-b_c', 'a\\:b', '> li', '+ p', 'div.x:first-child::after',
@@ -472,7 +473,11 @@ def expected_outward(text, items, pos):
     return out
 
 
-def expected_inward(text, items, pos):
+def expected_inward(text, items, pos, value_body=False):
+    """value_body=False: the body of a first-child declaration reached by descending is the text
+    between its colon and its semicolon without surrounding blanks (what the code and upstream
+    Emmet report: a comment before the `;` is included); value_body=True: it is the value itself,
+    as for a directly hit declaration.  The statement pins neither, both are accepted."""
     for n in postorder(items):
         if n['t'] == 'decl':
             if n['start'] <= pos <= n['vend']:
@@ -489,7 +494,10 @@ def expected_inward(text, items, pos):
                     n = n['children'][0] if n['children'] else None
                 else:
                     # the text between the colon and the semicolon, without surrounding blanks
-                    push(out, trim(text, n['colon'] + 1, n['end'] - 1))
+                    if value_body:
+                        push(out, (n['vstart'], n['vend']))
+                    else:
+                        push(out, trim(text, n['colon'] + 1, n['end'] - 1))
                     n = None
             return out
     return []
@@ -506,7 +514,7 @@ def c10_oracle(text, items, pos, got):
     if got['outward'] != exp:
         bad.append(('outward', 'balanced_outward(pos=%d) = %r, the record says %r' % (pos, got['outward'], exp)))
     exp = ('ok', expected_inward(text, items, pos))
-    if got['inward'] != exp:
+    if got['inward'] != exp and got['inward'] != ('ok', expected_inward(text, items, pos, value_body=True)):
         bad.append(('inward', 'balanced_inward(pos=%d) = %r, the record says %r' % (pos, got['inward'], exp)))
     return bad
 
